@@ -50,10 +50,12 @@ theorem constants_ok :
       [("EditKindDelete", "delete"), ("EditKindCommon", "common"), ("EditKindAdd", "add"), ("EditKindReplace", "replace")] ∧
     Extracted.Diff.snakeDepths = [Diff.snakeDepth] := by decide
 
-/-- the rebuild reason: the key list, the depth of comparison and diff, and the code that joins the reasons -/
+/-- the rebuild reason: the key list; the one comparison and the one diff `diffEnv` makes, both with the depth
+budget 1000 the model uses (`envDepth`; a call without a budget would use `CompareLimit = 10`); and the code that joins the reasons -/
 theorem reason_ok :
     Extracted.Diff.functionEnvKeys = Diff.functionEnvKeys ∧
     Extracted.Diff.diffEnvDepths = [Diff.envDepth, Diff.envDepth] ∧
-    Extracted.Diff.reasonSkeleton = Expected.Diff.reasonSkeleton := ⟨by decide, by decide, rfl⟩
+    Extracted.Diff.diffEnvCalls = [("starlark.EqualDepth", "1000"), ("diff.DiffDepth", "1000")] ∧
+    Extracted.Diff.reasonSkeleton = Expected.Diff.reasonSkeleton := ⟨by decide, by decide, by decide, rfl⟩
 
 end Dawn.Ties.Diff
